@@ -31,6 +31,8 @@ QUICK = [
     ('split_orderbook_last', dict(T=4, ob_last=True, orders=((0, 1, 2.0), (2, 4, -1.5), (3, 4, 1.0))), '2h', 'A'),
     ('split_alternating_nodes', dict(T=4), '2h', 'A'),
     ('mixed_discount_rates', dict(T=2), None, 'B'),
+    ('split_structured', dict(T=4), '2h', 'A'),
+    ('split_scaled_storage', dict(T=4, base='storage'), '2h', 'A'),
 ]
 THOROUGH = QUICK + [
     ('two_node_T4', dict(T=4, wacc=True), None, 'B'),
@@ -54,7 +56,7 @@ THOROUGH = QUICK + [
     ('windows_gap_two_nodes', dict(T=5, wins=((0, 2), (1, 2), (3, 5), (4, 5)), two_nodes=True), None, 'B'),
     ('windows_gap_split', dict(T=4, wins=((0, 1), (0, 1), (3, 4), (3, 4))), '4h', 'A'),
 ]
-SHAPE_OF = dict(split_orderbook_last='orderbook', split_alternating_nodes='alternating', mixed_discount_rates='mixed_wacc', windows_gap='windows', windows_gap_two_nodes='windows', windows_gap_split='windows', two_node_2n_storage='two_node', plant_fuel='plant', chp_fuel='plant', coarse_contract='coarse',
+SHAPE_OF = dict(split_structured='structured', split_scaled_storage='scaled', split_orderbook_last='orderbook', split_alternating_nodes='alternating', mixed_discount_rates='mixed_wacc', windows_gap='windows', windows_gap_two_nodes='windows', windows_gap_split='windows', two_node_2n_storage='two_node', plant_fuel='plant', chp_fuel='plant', coarse_contract='coarse',
                 coarse_transport='coarse', periodic_transport='periodic', scaled_transport='scaled',
                 split_two_node='two_node', window_transport='two_node', two_node_T4='two_node',
                 multicommodity_win='multicommodity', plant_fuel_mr='plant', chp_T3='plant', coarse_contract_win='coarse',
